@@ -36,14 +36,24 @@ def main():
                          ("context:real-cli-runs-in-an-ascii-locale", drive.ascii_locale_runs[0]),
                          ("context:real-cli-runs-with-warnings-as-errors", drive.warnings_as_errors_runs[0]),
                          ("context:same-named-decoy-keys-planted-in-HOME", drive.planted_in_home[0]),
+                         ("fault:real-cli-runs-under-a-file-size-limit:exit-0 (judged by the ordinary oracle)",
+                          drive.file_size_limit_runs["exit-0"]),
+                         ("fault:real-cli-runs-under-a-file-size-limit:failed (run again without the limit)",
+                          drive.file_size_limit_runs["failed"]),
                          ("context:command-lines-with-option=value", drive.respelled["joined-with-equals"]),
                          ("context:command-lines-with-options-reordered", drive.respelled["options-reordered"])):
                 if v:
                     rec.count(k, v)
+            from vlib.mon import faults
+            for k, v in faults.counters.items():
+                rec.count(k, v)
         elif mode == "canary":
             rec.extra["canaries"] = [[n_, bool(f)] for n_, f in mod.canaries(rec)]
         else:
             case = json.load(open(sys.argv[3]))
+            from vlib.mon import faults
+            _c = case["case"] if "case" in case and "property" in case else case
+            faults.new_case(_c.get("n") if isinstance(_c, dict) else None)
             mod.replay(rec, case["case"] if "case" in case and "property" in case else case)
     except BaseException:
         rec.inconclusive.append(f"worker {mode} crashed: " + traceback.format_exc()[-1500:])
